@@ -38,6 +38,9 @@ type hole struct {
 	cat   cat
 	kind  kind
 	scope []string // atoms that come into scope inside this hole (bound variable, defined function, label)
+	// body of a definition of f: calls of an outer f are not offered here, they
+	// would be calls of the function being defined (unbounded recursion)
+	defBody bool
 }
 
 type prod struct {
@@ -104,10 +107,11 @@ func buildProds() []prod {
 		add("op"+op, catQ, true, []string{"", sp, ""}, q(lk), q(rk))
 	}
 	// function definitions: plain, closure parameter, $ parameter, both
-	add("def0", catQ, true, []string{"def f: ", "; ", ""}, q(kNum), q(kNum, "f"))
-	add("defc", catQ, true, []string{"def f(g): ", "; ", ""}, q(kNum, "g"), q(kNum, "f(.a)"))
-	add("defv", catQ, true, []string{"def f($a): ", "; ", ""}, q(kNum, "$a"), q(kNum, "f(7)"))
-	add("defcv", catQ, true, []string{"def f(g; $a): ", "; ", ""}, q(kNum, "g", "$a"), q(kNum, "f(.a; 7)"))
+	body := func(scope ...string) hole { h := q(kNum, scope...); h.defBody = true; return h }
+	add("def0", catQ, true, []string{"def f: ", "; ", ""}, body(), q(kNum, "f"))
+	add("defc", catQ, true, []string{"def f(g): ", "; ", ""}, body("g"), q(kNum, "f(.a)"))
+	add("defv", catQ, true, []string{"def f($a): ", "; ", ""}, body("$a"), q(kNum, "f(7)"))
+	add("defcv", catQ, true, []string{"def f(g; $a): ", "; ", ""}, body("g", "$a"), q(kNum, "f(.a; 7)"))
 	// binds
 	add("as", catQ, true, []string{"", " as ", " | ", ""}, t(kGen), p(), q(kNum, "$x"))
 	add("asalt", catQ, true, []string{"", " as ", " ?// ", " | ", ""}, t(kGen), p(), p(), q(kNum, "$x"))
@@ -488,8 +492,16 @@ func (g *gen) enumProd(p *prod, rest int, scope []string, pol policy, yield func
 		}
 		h := p.holes[i]
 		sc := scope
+		if h.defBody {
+			sc = nil
+			for _, a := range scope {
+				if a != "f" && !strings.HasPrefix(a, "f(") {
+					sc = append(sc, a)
+				}
+			}
+		}
 		if len(h.scope) > 0 {
-			sc = append(append([]string{}, scope...), h.scope...)
+			sc = append(append([]string{}, sc...), h.scope...)
 		}
 		lo, hi := 0, left
 		if i == nh-1 {
